@@ -98,6 +98,14 @@ type GhostField struct {
 	Var  bool // scalar ghost variable rather than per-object field
 }
 
+// GhostInit: the value of a ghost field of a freshly allocated (zero) object of a type.
+type GhostInit struct {
+	Pkg   string
+	Type  string
+	Field string
+	E     Expr
+}
+
 type SpecFile struct {
 	Funcs      []*FuncContract
 	Defines    []*DefineSpec
@@ -107,6 +115,7 @@ type SpecFile struct {
 	Ghosts     []*GhostField
 	Ignores    []string
 	Implements []ImplSpec
+	Inits      []GhostInit
 }
 
 type ImplSpec struct {
@@ -200,7 +209,7 @@ func ParseSpecFile(path string, pkgPath string) (*SpecFile, error) {
 		if w == "ghost" {
 			_, r := firstWord(l)
 			k, _ := firstWord(r)
-			isTop = k == "field" || k == "var"
+			isTop = k == "field" || k == "var" || k == "init"
 		}
 		if isTop || clauseKW[w] {
 			items = append(items, item{strings.TrimSpace(l), nums[i], isTop})
@@ -338,6 +347,19 @@ func ParseSpecFile(path string, pkgPath string) (*SpecFile, error) {
 			case "ghost":
 				// ghost field $name Type | ghost var $name Type
 				k, r2 := firstWord(rest)
+				if k == "init" {
+					// ghost init T $f = expr
+					tn, r3 := firstWord(r2)
+					fn, r4 := firstWord(r3)
+					r4 = strings.TrimSpace(strings.TrimPrefix(strings.TrimSpace(r4), "="))
+					e, err := ParseExpr(r4)
+					if err != nil {
+						return nil, fmt.Errorf("%s:%d: %v", path, it.line, err)
+					}
+					sf.Inits = append(sf.Inits, GhostInit{curPkg, tn, fn, e})
+					cur = nil
+					continue
+				}
 				n, t := firstWord(r2)
 				if (k != "field" && k != "var") || !strings.HasPrefix(n, "$") || t == "" {
 					return nil, fmt.Errorf("%s:%d: bad ghost declaration", path, it.line)
